@@ -14,7 +14,7 @@ EXPLAINED = {
 
 class C02(Property):
     id = "C02"
-    lean_module = "RosuModel.Props.C02Slider"   # imports Props/C02.lean; both files are in namespace Rosu.C02
+    lean_module = "RosuModel.Props.C02All"   # imports Props/C02Slider.lean and Props/C02Timing.lean (which import Props/C02.lean); all in namespace Rosu.C02
     namespace = "Rosu.C02"
     design_ref = "5.2"
     required_theorems = ["trim_cons_space", "kvSplit_kvLine", "kv_line_roundtrip", "int_display_parse", "int_display_clean",
@@ -22,7 +22,9 @@ class C02(Property):
                          "editor_block_roundtrip", "difficulty_block_roundtrip", "general_block_roundtrip", "events_block_roundtrip",
                          "laws_satisfiable", "records_roundtrip", "circle_rt", "spinner_rt", "hold_rt", "samples_bank_info_rt", "samples_rt",
                          "path_string_roundtrip", "path_string_roundtrip_fresh", "slider_rt", "slider_rt_exact", "decodedNodes_get",
-                         "node_names_banks", "node_samples_rt", "slider_laws_satisfiable", "hitobjects_block_rt"]
+                         "node_names_banks", "node_samples_rt", "slider_laws_satisfiable", "hitobjects_block_rt",
+                         "timing_line_rt", "inherited_line_rt", "redundant_group_no_effect", "timing_laws_satisfiable", "timing_block_redecoded",
+                         "timing_rt", "timing_rt_laws_satisfiable", "timing_roundtrip_file", "sample_timeline_hyps"]
     partial_theorems = {
         "editor_block_roundtrip / difficulty_block_roundtrip / general_block_roundtrip / events_block_roundtrip / records_roundtrip":
             "law-dependent: proved for every number codec satisfying CodecLaws (parse(print x) = x on the representable values; printed numbers are non-empty and made of "
@@ -60,9 +62,29 @@ class C02(Property):
         "hitobjects_block_rt": "law-dependent; conditional on every object of the map being representable (SliderRt.RepObject = RepCircle / RepSlider / RepSpinner / RepHold): the [HitObjects] "
             "block read back from any decoder state appends one object per line, same kinds, same start times, same order, path buffer left empty; what else comes back per object is "
             "circle_rt / slider_rt / spinner_rt / hold_rt",
-        "roundtrip": "NOT yet theorems (only `def roundtrip_statement : Prop`, `def hitobjects_roundtrip_statement : Prop`): that every object of a DECODED map is representable in the sense of "
-            "RepObject (outside F17/F18/F20), the map-level processing after the lines, timing points and the "
-            "effective SV/kiai/scroll timelines (layer 5 of DESIGN 5.2), and therefore the property as a whole. These are evaluated on the implementation by the `rt` oracle "
+        "timing_line_rt / inherited_line_rt / timing_block_redecoded":
+            "law-dependent (CodecLaws), line level resp. file level. timing_line_rt: the 1-line of a stored timing point (sorted collection, beat length inside the clamp [6, 60000]) is "
+            "accepted in any state and applied as a timing change whose TimingPoint IS that point (time, beat length, signature, omit-first-bar-line). inherited_line_rt: a 0-line is applied "
+            "as a non-timing line at the group's time with the slider velocity (scroll speed in taiko/mania) and kiai flag in effect there and the sample fields written — the velocity goes "
+            "through the arithmetic inverse 100/−(−100/v) = v, taken as a hypothesis (exact in exact arithmetic; the documented ≤4 ulp drift for IEEE). timing_block_redecoded: re-decoding "
+            "the encoded file leaves as control points exactly what the decoder's state machine (applyTpLine, C12) builds from the values written — for maps satisfying "
+            "RtTiming.RepTimingMap (see C04; a decoded map can violate it only through collected sample points at non-representable computed times)",
+        "redundant_group_no_effect":
+            "exact arithmetic only (RtTiming.EpsLaws: |a−b| < EPSILON iff a = b; instance: the integer toy scalar ZC with eps = 1): from a group's time up to the next control point the true "
+            "properties equal last_props after that group's iteration, whether its inherited line was written or suppressed. For IEEE doubles the law fails for non-finite values and for "
+            "distinct values closer than 2.2e-16 (possible below 2.0): there a suppressed line can change the effective velocity by less than EPSILON — not modelled",
+        "timing_rt / timing_roundtrip_file":
+            "layer 5 of DESIGN 5.2, proved in EXACT ARITHMETIC only: under RtTiming.EpsLaws (|a−b| < EPSILON iff a = b), GroupLaws (the decoder's grouping test |t−u| >= EPSILON likewise) and "
+            "TimelineHyps (sorted collection; numerators >= 1; timing points with non-negative beat length inside [6, 60000]; every slider velocity — scroll speed in taiko/mania — and the "
+            "default 1 with −100/v < 0, 100/−(−100/v) = v and inside its clamp) — all satisfiable on the integer toy scalar ZC (timing_rt_laws_satisfiable, sample_timeline_hyps on "
+            "C04.sampleMap) — the re-decoded map has the same timing points (time, beat length, signature, omit-first-bar-line, in order) and at every time the same effective slider "
+            "velocity (difficulty_point_at; in taiko/mania the scroll speed of effect_point_at) and kiai flag. timing_roundtrip_file adds the codec laws and RepRecords / RepTimingMap and goes "
+            "through encode, UTF-8 bytes, reader, framing, Beatmap decoder and finalisation. NOT covered: IEEE doubles (the laws fail: 100/(100/v) may be off by an ulp, values closer than "
+            "2.2e-16 exist below 2.0, inf−inf is NaN) — that is the ≤4 ulp slider-velocity drift the `rt` oracle measures; sample points (not part of the preserved view); the difficulty-"
+            "point velocity in taiko/mania and the scroll speed elsewhere (the format carries one of the two)",
+        "roundtrip": "NOT a theorem as a whole (only `def roundtrip_statement : Prop`, `def hitobjects_roundtrip_statement : Prop`): that every object of a DECODED map is representable in the sense of "
+            "RepObject (outside F17/F18/F20), the map-level processing after the lines (velocity, sample defaults, forced new combos), the timing round trip for IEEE doubles, and therefore the "
+            "property as a whole. These are evaluated on the implementation by the `rt` oracle "
             "(preserved view compared field by field, floats by bits, curves included, ≤4 ulp only for slider velocity) and on the model by the three-way `rt` correspondence "
             "(M1, text, M2 all identical between model and code)",
     }
@@ -72,11 +94,16 @@ class C02(Property):
                   "inside the clamps; general with the encoder's SampleSet / CountdownOffset / SpecialStyle / flag rules; background file and breaks), and file level for those sections "
                   "(records_roundtrip: encode, UTF-8 bytes, reader, framing, Beatmap decoder, finalisation), and line level for circles, spinners and hold notes (circle_rt, spinner_rt, "
                   "hold_rt, samples_bank_info_rt, samples_rt) and sliders (path_string_roundtrip over the decidable class RepPath, slider_rt, slider_rt_exact, node_samples_rt). "
-                  "Everything that prints floats is proved for every lawful number codec. Timing points and the per-map assembly of the object lines are not yet theorems. Model of decoder and encoder compared three ways on every case (decoded map, encoded text character for character, re-decoded map); "
+                  "For timing points: line level (timing_line_rt: a timing point's line comes back as that point; inherited_line_rt: an inherited line "
+                  "comes back as the velocity / kiai / sample fields in effect), the encoder's redundancy suppression loses nothing under exact arithmetic (redundant_group_no_effect), and file level "
+                  "timing_block_redecoded (the re-decoded control points are the decoder's state machine run over exactly the values written), and the timing-point round trip itself in exact "
+                  "arithmetic (timing_rt, timing_roundtrip_file: same timing points, same effective slider velocity / scroll speed and kiai at every time — encoder group loop and redundancy "
+                  "suppression against the decoder's pending groups, precedence and redundancy checks). Everything that prints floats is proved for every "
+                  "lawful number codec. The per-map assembly of the object lines (that a decoded map's objects are representable) is not a theorem. Model of decoder and encoder compared three ways on every case (decoded map, encoded text character for character, re-decoded map); "
                   "the property itself — preserved(decode(encode(decode x))) = preserved(decode x) for chronological inputs — is evaluated on the real code over the structured generator "
                   "(all sections, four modes, versions 3..128, all object kinds, multi-segment paths, same-time timing groups, hostile-but-accepted numerics), field-level mutations of the "
                   "bundled maps and the bundled maps themselves.")
-    technique = "Lean 4 proof (line, section and record-file level round trips; law-dependent where floats are printed) + three-way correspondence + implementation-level round-trip oracle"
+    technique = "Lean 4 proof (line, section and record-file level round trips, timing-point lines; law-dependent where floats are printed) + three-way correspondence + implementation-level round-trip oracle"
     trusted_base = [
         "Lean 4.33.0 kernel; axioms ⊆ {propext, Classical.choice, Quot.sound} per #print axioms",
         "hand-written decode + encode models tied to /repo by the `rt` differential of this run",
